@@ -772,6 +772,29 @@ def run(facts, cg):
                 if hazard:
                     finding('R-DEBUGONLY', b.q, 'panic-in-log:' + hazard, 'an argument of a log macro at %s can panic (%s): it is only evaluated when that log level is enabled, which '
                             'no test does' % (t['loc'], hazard))
+                # ... one level into a helper of the tool called for a log line (`short_hash(h)` slicing `h[..8]`): a hazard that sits on
+                # every path through the helper is a hazard of the log line
+                if t['k'] == 'call' and 'q' in t['callee'] and not hazard:
+                    gd = t['callee'].get('rdef') or t['callee'].get('def')
+                    g = facts.original.get(gd)
+                    if g is not None and not g.generated and g.crate in ('bita', 'bitar') and not g.raw.get('coroutine'):
+                        gdom = g._classic_dominators()
+                        rets = [x for x in g.live if g.blocks[x]['term']['k'] == 'return']
+                        for gbi in g.live:
+                            gt = g.blocks[gbi]['term']
+                            if gt.get('exp'):
+                                continue
+                            hz = None
+                            # (arithmetic inside library helpers - `32 - bits` on validated bits - is R-UNTRUSTED's subject, not this rule's)
+                            if gt['k'] == 'call' and 'q' in gt['callee'] and callee_q(gt) in ('core::option::Option::unwrap', 'core::result::Result::unwrap',
+                                                                                          'core::option::Option::expect', 'core::result::Result::expect') and g.crate == 'bita':
+                                hz = callee_q(gt).split('::')[-1]
+                            elif gt['k'] == 'call' and 'q' in gt['callee'] and gt['callee']['q'] == 'core::ops::index::Index::index' and len(gt['args']) == 2 and \
+                                    gt['args'][1]['k'] in ('copy', 'move') and 'Range' in (g.lty(gt['args'][1]['pl']['l']).get('adt') or ''):
+                                hz = 'index'        # a range slice `x[..n]` / `x[a..b]`
+                            if hz and rets and all(gbi == r_ or gbi in gdom.get(r_, ()) for r_ in rets):
+                                finding('R-DEBUGONLY', b.q, 'panic-in-log:%s@%s' % (hz, g.q.split('::')[-1]), 'the log line at %s calls %s, which can panic on every path through it '
+                                        '(%s at %s): it is only evaluated when that log level is enabled, which no test does' % (t['loc'], g.q, hz, gt['loc']))
     instances.append({'rule': 'R-DEBUGONLY(log)', 'log_gates': n_log})
 
     # ---------------------------------------------------------------- R-DEBUGONLY: nothing the program relies on happens inside a debug_assert
